@@ -8,7 +8,8 @@
     ([MultiCache.mstep], which carries every counter).  K_P, from the
     implementation's own observations only:
       tag 2  leafcount_is_tree: targetLeaves = number of non-metadata leaves
-             returned by Query;
+             returned by Query; and after every refresh (UpdateMetadata, Reset)
+             the exported leaf meta/targetLeaves exists and shows that number;
       tag 3  leafcount_add_minus_del: targetLeaves = targetLeavesAdded -
              targetLeavesDeleted;
       tag 4  update_accounting: the counters moved by a call add up to the
@@ -259,10 +260,29 @@ Definition kt_next (prev : list (string * tobs)) (ks : list (string * kt)) (o : 
   | _ => ks1
   end.
 
+(** after every refresh (UpdateMetadata; Reset of that target) the EXPORTED leaf
+    count -- the leaf meta/targetLeaves that queries and subscribers see -- exists
+    and shows the number of non-metadata leaves stored *)
+Definition kp_exported_one (a : tobs) : bool :=
+  match to_dump a with
+  | Some d =>
+      existsb (fun e => path_eqb (fst e) ["meta"; md_leaf_count] &&
+                        otv_eqb (first_val (snd e)) (Some (TInt (Z.of_nat (List.length (non_meta d)))))) d
+  | None => true
+  end.
+
+Definition kp_exported (o : mop) (ob : mobs) : bool :=
+  match o with
+  | MUpdateMeta _ => forallb (fun kt => kp_exported_one (snd kt)) (o_tgts ob)
+  | MReset _ t => match assoc t (o_tgts ob) with Some a => kp_exported_one a | None => true end
+  | _ => true
+  end.
+
 Definition kp_cache_step (prev : list (string * tobs)) (ks : list (string * kt)) (o : mop) (ob : mobs)
   : list N :=
   let ks' := kt_next prev ks o ob in
   kp_leafcount ks' ob ++
+  (if kp_exported o ob then [] else [2%N]) ++
   (if kp_accounting prev o ob then [] else [4%N]) ++
   kp_latest ks' o ob.
 
